@@ -1,7 +1,10 @@
 package keeper
 
 import (
+	"cosmossdk.io/core/comet"
 	"cosmossdk.io/math"
+	abci "github.com/cometbft/cometbft/abci/types"
+	cmtproto "github.com/cometbft/cometbft/proto/tendermint/types"
 	"github.com/ethereum/go-ethereum/core/types/goattypes"
 	"github.com/goatnetwork/goat/zzverif/vrt"
 )
@@ -39,6 +42,53 @@ func VH_C13_lock_endblock(h *vrt.H) {
 		h.Reach("lock-refused")
 		return
 	}
+	vhCheckEndBlock(h, k, ctx, n, st.K)
+	h.Reach("end")
+}
+
+// VH_C13_op_endblock: any single operation (unlock, weight change, a missed vote that may
+// jail, double-sign evidence) on any Inv_L state re-establishes Inv_L, and the EndBlocker
+// that follows never fails and reports acceptable updates.
+func VH_C13_op_endblock(h *vrt.H) {
+	n := 1
+	if h.Thorough() {
+		n = 2
+	}
+	k, ctx := vhKeeper(h)
+	w := []uint64{0, 1, 3_000_000_000_000_000_000}[h.Choose("weight", 0, 2)]
+	st := vhBuild(h, k, ctx, n, 1, []uint64{w})
+	ctx = ctx.WithBlockHeight(10)
+	target := h.Choose("target", 0, n-1)
+	amt := h.Big("amount", "0", vhBig)
+	gained := math.NewIntFromUint64(3_000_000_000_000_000_000).Mul(math.NewIntFromBigInt(amt)).Quo(math.NewIntFromUint64(1_000_000_000_000_000_000))
+	var err error
+	switch h.Choose("op", 0, 3) {
+	case 0:
+		err = k.Unlock(ctx, []*goattypes.UnlockRequest{{Id: 1, Validator: vhEthAddr(vhAddr(target)), Token: st.Tokens[0].Addr, Amount: amt}})
+	case 1:
+		nw := []uint64{0, 1, 2, 3_000_000_000_000_000_000}[h.Choose("newWeight", 0, 3)]
+		// a weight raise can push the power over CometBFT's limit (known finding: nothing caps it)
+		for i := 0; i < n; i++ {
+			up := math.NewIntFromUint64(3_000_000_000_000_000_000).Mul(st.Vals[i].Held[0]).Quo(math.NewIntFromUint64(1_000_000_000_000_000_000))
+			h.Region("unbounded-voting-power", up.GT(math.NewInt(cmtMaxTotalVotingPower/4)))
+		}
+		if h.Panics(func() {
+			err = k.UpdateTokens(ctx, []*goattypes.UpdateTokenWeightRequest{{Token: st.Tokens[0].Addr, Weight: nw}}, nil)
+		}) {
+			h.Reach("panicked-recovered-by-runtx")
+			return
+		}
+	case 2:
+		err = k.HandleVoteInfos(ctx.WithVoteInfos([]abci.VoteInfo{{Validator: abci.Validator{Address: vhAddr(target), Power: 1}, BlockIdFlag: cmtproto.BlockIDFlagAbsent}}))
+	case 3:
+		err = k.HandleEvidences(ctx.WithCometInfo(vhBlockInfo{ev: vhEvidenceList{{typ: comet.DuplicateVote, addr: vhAddr(target), height: 9}}}))
+	}
+	_ = gained
+	if err != nil {
+		h.Reach("refused")
+		return
+	}
+	vhCheckInvL(h, k, ctx, st)
 	vhCheckEndBlock(h, k, ctx, n, st.K)
 	h.Reach("end")
 }
